@@ -25,6 +25,9 @@ func c01Alphabet() []EngOp {
 		EngOp{Kind: "txr", Sub: []EngOp{{Kind: "put", Key: "a"}, {Kind: "del", Key: "b"}}},
 		EngOp{Kind: "put", Key: "\x00\xff"},
 		EngOp{Kind: "crange", Lo: "a", Hi: "b"},
+		// raw batch with repeated keys: put/put, put/delete, delete/put inside one batch (one sequence number)
+		EngOp{Kind: "abatch", Sub: []EngOp{{Kind: "put", Key: "a"}, {Kind: "put", Key: "a"}, {Kind: "put", Key: "b"}, {Kind: "del", Key: "b"}}},
+		EngOp{Kind: "abatch", Sub: []EngOp{{Kind: "del", Key: "a"}, {Kind: "put", Key: "a"}}},
 	)
 	return a
 }
@@ -95,7 +98,7 @@ func init() {
 	fw.Register(&fw.Check{
 		ID:    "C01",
 		Level: "model_checking",
-		Rule: "explicit-state search over engine programs: alphabet {put a/b/\\x00\\xff (fresh value id per write), del a/b, 3-key commit, delete+put commit, rollback, flush, bg (background flush to quiescence), reopen, compact, compact-range} on the real EngineFacade under the deterministic scheduler, all programs up to the depth per configuration (memtable size 32MiB / 1 B / 40 B, max memtables 4/2, sync immediate/none), states de-duplicated by the canonical implementation state (every layer's entries with sequence numbers, log counters, files); after each program every key is read and compared with a map model. " +
+		Rule: "explicit-state search over engine programs: alphabet {put a/b/\\x00\\xff (fresh value id per write), del a/b, 3-key commit, delete+put commit, rollback, two raw batches with repeated keys (put/put, put/delete, delete/put under one sequence number), flush, bg (background flush to quiescence), reopen, compact, compact-range} on the real EngineFacade under the deterministic scheduler, all programs up to the depth per configuration (memtable size 32MiB / 1 B / 40 B, max memtables 4/2, sync immediate/none), states de-duplicated by the canonical implementation state (every layer's entries with sequence numbers, log counters, files); after each program every key is read and compared with a map model. " +
 			"Value-shape sub-run: empty, nil, 1 B, one-record, fragmented, >1 block values and a 4 KiB key followed by all maintenance sequences of length <=3, and a 90 KB three-entry commit behind a small put followed by the same continuations (memtable 32 MiB / 1 B, sync immediate / none / batch). Non-trivial = programs with >=2 steps",
 		Assumptions: []string{"single client; background threads run only at explicit bg steps or when the client waits for them (a legal schedule; other schedules are C06's subject)", "state key omits wall-clock derived names; virtual time makes them functions of the program"},
 		Units: func(tier string) []string {
